@@ -196,6 +196,10 @@ Definition await_ (i : io) : M :=
 Notation "m ;; n" := (mseq m n) (at level 61, right associativity).
 Notation "x <- m ;; n" := (mbind m (fun x => n)) (at level 61, m at next level, right associativity).
 
+(* the DBAPI connections held by the records waiting in the pool queue *)
+Definition qconns (q : list rec) : list nat :=
+  flat_map (fun r => match r_conn r with Some c => [c] | None => [] end) q.
+
 Record cfg := mkcfg { psize : Z; maxov0 : Z }.
 Section Model.
   Variable cf : cfg.
@@ -254,6 +258,9 @@ Section Model.
   (* ---------- pool ---------- *)
   (* Pool._close_connection *)
   Definition close_connection (ing : bool) (c : nat) (term : bool) : M :=
+    (* ghost (ordering obligation): a connection is only ever closed while its record is NOT available
+       to other checkouts - closing awaits the driver, another task may run and take the record *)
+    mget (fun s => if existsb (Nat.eqb c) (qconns (q s)) then mmod (fun s => set_oom s true) else munit) ;;
     mtry (if term then terminate ing c else await_ (IoClose c))
          (fun e => if is_exception e then munit else mraise e).
 
